@@ -2228,6 +2228,7 @@ var envStubs = map[string]bool{
 	"strconv.Itoa": true, "strconv.FormatInt": true, "strconv.Atoi": true, "strconv.ParseInt": true,
 	"(net/url.Values).Set": true, "(net/url.Values).Encode": true, "(*net/url.URL).String": true, "(*net/url.URL).Hostname": true, "(*net/url.URL).Port": true,
 	"github.com/jech/storrent/httpclient.Get": true, "net/netip.ParseAddr": true, "net.JoinHostPort": true,
+	"(net/http.Header).Get": true, "(net/url.Values).Add": true,
 	"net/http.Error": true, "net/http.NotFound": true, "net/http.Redirect": true, "(*net/http.Request).ParseForm": true, "(*net/http.Request).PathValue": true,
 	"(net/netip.AddrPort).String": true, "(net/netip.Addr).String": true, "(github.com/jech/storrent/hash.Hash).String": true,
 	"encoding/hex.EncodeToString": true, "hash/fnv.New64a": true, "os.Getuid": true, "os.Getgid": true,
